@@ -257,13 +257,18 @@ func (wg *WaitGroup) Done() { wg.Add(-1) }
 
 func (wg *WaitGroup) Wait() {
 	t := simrt.Point()
-	for wg.n > 0 {
+	if wg.n > 0 {
 		if t == nil {
 			simrt.PlainContended("WaitGroup.Wait")
 			return
 		}
 		wg.waiters = append(wg.waiters, t)
 		simrt.Block(t, "WaitGroup.Wait")
+		// like sync.WaitGroup: a waiter that was released at zero and finds the counter raised again by the time it runs
+		// panics ("new Add calls must happen after all previous Wait calls have returned")
+		if wg.n != 0 && !simrt.Dead() {
+			panic("sync: WaitGroup is reused before previous Wait has returned")
+		}
 	}
 }
 
